@@ -17,6 +17,9 @@ Local Arguments N.leb : simpl never.
 Local Arguments N.max : simpl never.
 Local Arguments N.of_nat : simpl never.
 Local Arguments N.to_nat : simpl never.
+Local Arguments skipn : simpl never.
+Local Arguments firstn : simpl never.
+Local Arguments nth_error : simpl never.
 
 (* a status that is an EVM outcome, or the one fault not excluded here *)
 Definition okst (s : status) : Prop :=
@@ -282,7 +285,8 @@ Ltac mem_step :=
     | apply pay_mem_inr in Ep; exact Ep] end.
 
 Ltac post := unfold exec_post; simpl in *;
-  repeat match goal with |- _ /\ _ => split end; auto; try lia.
+  repeat match goal with |- _ /\ _ => split end; auto;
+  repeat match goal with H : f_stack _ = _ |- _ => rewrite H end; simpl; try lia.
 
 Ltac stack4 Hs Hlen f :=
   destruct (f_stack f) as [|x0 [|x1 [|x2 [|x3 r]]]] eqn:Hs; simpl in Hlen; try lia.
@@ -294,36 +298,33 @@ Lemma exec_instr_ok c f i :
 Proof.
   intros Hrec Hwf Hlen.
   destruct i.
-  - (* STOP *) unfold exec_instr. simpl. post.
-  - (* un *) unfold exec_instr. stack4 Hs Hlen f; destruct u; post.
-  - (* bin *) unfold exec_instr. stack4 Hs Hlen f; destruct b; try solve [post].
+  - (* STOP *) unfold exec_post, exec_instr. simpl. post.
+  - (* un *) unfold exec_post, exec_instr. stack4 Hs Hlen f; destruct u; post.
+  - (* bin *) unfold exec_post, exec_instr. stack4 Hs Hlen f; destruct b; try solve [post].
     + destruct (charge _ _) eqn:Ec; [apply charge_some in Ec|post].
       pose proof (exp_gas_ge x1). post.
     + destruct (charge _ _) eqn:Ec; [apply charge_some in Ec|post].
       pose proof (exp_gas_ge x1). post.
     + destruct (charge _ _) eqn:Ec; [apply charge_some in Ec|post].
       pose proof (exp_gas_ge x1). post.
-  - (* ter *) unfold exec_instr. stack4 Hs Hlen f; destruct t; post.
-  - (* KECCAK256 *) unfold exec_instr. stack4 Hs Hlen f;
+  - (* ter *) unfold exec_post, exec_instr. stack4 Hs Hlen f; destruct t; post.
+  - (* KECCAK256 *) unfold exec_post, exec_instr. stack4 Hs Hlen f;
     (destruct (2 ^ 64 <=? x1); [post|]); mem_step;
     (destruct (mem_read _ _ _) eqn:Erd; [|exfalso; revert Erd; eapply mem_read_ok; eauto]);
     post; rewrite ?Hst; simpl; lia.
-  - (* env0 *) unfold exec_instr. post. destruct e; simpl; lia.
-  - (* env1 *) unfold exec_instr. stack4 Hs Hlen f; post; destruct e; simpl; lia.
-  - (* acct *) unfold exec_instr. stack4 Hs Hlen f;
+  - (* env0 *) unfold exec_post, exec_instr. post. destruct e; simpl; lia.
+  - (* env1 *) unfold exec_post, exec_instr. stack4 Hs Hlen f; post; destruct e; simpl; lia.
+  - (* acct *) unfold exec_post, exec_instr. stack4 Hs Hlen f;
     (destruct (access_account _ _) as [extra w1]);
     (destruct (charge _ _) eqn:Ec; [apply charge_some in Ec|post]); post.
-  - (* copy *) unfold exec_instr. stack4 Hs Hlen f;
+  - (* copy *) unfold exec_post, exec_instr. stack4 Hs Hlen f;
     (destruct (2 ^ 64 <=? x2); [post|]); mem_step;
-    destruct c0;
-    repeat match goal with
-    | |- context [if ?b then _ else _] => destruct b; [post|]
-    end;
+    (destruct c0; [| |(destruct (2 ^ 64 <=? x1); [post|]); (destruct (_ || _); [post|])]);
     (destruct (mem_write _ _ _ _) eqn:Ew; [|exfalso; revert Ew; eapply mem_write_ok; eauto]);
     pose proof (mem_write_spec _ _ _ _ _ Ew) as [Hl2 Hf2];
     pose proof (mem_write_wf _ _ _ _ _ Hwf1 Ew);
     post; rewrite ?Hst, ?Hf2; simpl; lia.
-  - (* EXTCODECOPY *) unfold exec_instr.
+  - (* EXTCODECOPY *) unfold exec_post, exec_instr.
     destruct (f_stack f) as [|x0 [|x1 [|x2 [|x3 r]]]] eqn:Hs; simpl in Hlen; try lia.
     destruct (2 ^ 64 <=? x3); [post|].
     destruct (access_account _ _) as [extra w1].
@@ -337,55 +338,55 @@ Proof.
     pose proof (mem_write_spec _ _ _ _ _ Ew) as [Hl2 Hf2].
     pose proof (mem_write_wf _ _ _ _ _ Hwf1 Ew).
     post; rewrite ?Hst, ?Hf2; simpl in *; try rewrite Hs; simpl; lia.
-  - (* POP *) unfold exec_instr. stack4 Hs Hlen f; post.
-  - (* MLOAD *) unfold exec_instr. stack4 Hs Hlen f; mem_step;
+  - (* POP *) unfold exec_post, exec_instr. stack4 Hs Hlen f; post.
+  - (* MLOAD *) unfold exec_post, exec_instr. stack4 Hs Hlen f; mem_step;
     (destruct (mem_read _ _ _) eqn:Erd; [|exfalso; revert Erd; eapply mem_read_ok; eauto]);
     post; rewrite ?Hst; simpl; lia.
-  - (* MSTORE *) unfold exec_instr. stack4 Hs Hlen f; mem_step;
+  - (* MSTORE *) unfold exec_post, exec_instr. stack4 Hs Hlen f; mem_step;
     unfold mem_write_word;
     (destruct (mem_write _ _ _ _) eqn:Ew; [|exfalso; revert Ew; eapply mem_write_ok; eauto]);
     pose proof (mem_write_spec _ _ _ _ _ Ew) as [Hl2 Hf2];
     pose proof (mem_write_wf _ _ _ _ _ Hwf1 Ew);
     post; rewrite ?Hst, ?Hf2; simpl; lia.
-  - (* MSTORE8 *) unfold exec_instr. stack4 Hs Hlen f; mem_step;
+  - (* MSTORE8 *) unfold exec_post, exec_instr. stack4 Hs Hlen f; mem_step;
     unfold mem_write_byte;
     (destruct (mem_write _ _ _ _) eqn:Ew; [|exfalso; revert Ew; eapply mem_write_ok; eauto]);
     pose proof (mem_write_spec _ _ _ _ _ Ew) as [Hl2 Hf2];
     pose proof (mem_write_wf _ _ _ _ _ Hwf1 Ew);
     post; rewrite ?Hst, ?Hf2; simpl; lia.
-  - (* SLOAD *) unfold exec_instr. stack4 Hs Hlen f;
+  - (* SLOAD *) unfold exec_post, exec_instr. stack4 Hs Hlen f;
     (destruct (is_warm_slot _ _ _));
     (destruct (charge _ _) eqn:Ec; [apply charge_some in Ec|post]);
     unfold warm_read_cost, cold_sload_cost in *; post.
-  - (* SSTORE *) unfold exec_instr. stack4 Hs Hlen f;
+  - (* SSTORE *) unfold exec_post, exec_instr. stack4 Hs Hlen f;
     (destruct (c_static c); [post|]);
     (destruct (_ <=? sstore_sentry); [post|]);
     match goal with |- context [sstore_cost_refund ?a ?b ?d ?e] =>
       pose proof (sstore_cost_ge a b d e); destruct (sstore_cost_refund a b d e) as [cost refunds] end;
     (destruct (apply_refunds _ _); [|post]);
     (destruct (charge _ _) eqn:Ec; [apply charge_some in Ec|post]); post.
-  - (* JUMP *) unfold exec_instr. stack4 Hs Hlen f; (destruct (valid_jump _ _); post).
-  - (* JUMPI *) unfold exec_instr. stack4 Hs Hlen f;
+  - (* JUMP *) unfold exec_post, exec_instr. stack4 Hs Hlen f; (destruct (valid_jump _ _); post).
+  - (* JUMPI *) unfold exec_post, exec_instr. stack4 Hs Hlen f;
     (destruct (_ =? 0); [post|]); (destruct (valid_jump _ _); post).
-  - (* JUMPDEST *) unfold exec_instr. post.
-  - (* TSTORE *) unfold exec_instr. stack4 Hs Hlen f; (destruct (c_static c); post).
-  - (* MCOPY *) unfold exec_instr. stack4 Hs Hlen f;
+  - (* JUMPDEST *) unfold exec_post, exec_instr. post.
+  - (* TSTORE *) unfold exec_post, exec_instr. stack4 Hs Hlen f; (destruct (c_static c); post).
+  - (* MCOPY *) unfold exec_post, exec_instr. stack4 Hs Hlen f;
     (destruct (2 ^ 64 <=? x2); [post|]); mem_step;
     (destruct (mem_copy _ _ _ _) eqn:Ew; [|exfalso; revert Ew; eapply mem_copy_ok; eauto]);
     pose proof (mem_copy_spec _ _ _ _ _ Ew) as [Hl2 Hf2];
     assert (mem_wf m) by (destruct Hwf1 as [A B]; unfold mem_wf; rewrite Hl2, Hf2; auto);
     post; rewrite ?Hst, ?Hf2; simpl; lia.
-  - (* PUSH *) unfold exec_instr. post.
-  - (* DUP *) unfold exec_instr. simpl in Hlen.
+  - (* PUSH *) unfold exec_post, exec_instr. post.
+  - (* DUP *) unfold exec_post, exec_instr. simpl in Hlen.
     destruct (nth_error (f_stack f) n) eqn:En.
     + post.
     + apply nth_error_None in En. lia.
-  - (* SWAP *) unfold exec_instr. simpl in Hlen.
+  - (* SWAP *) unfold exec_post, exec_instr. simpl in Hlen.
     destruct (f_stack f) as [|top r] eqn:Hs; simpl in Hlen; [lia|].
     destruct (nth_error r n) eqn:En.
     + post. rewrite app_length, firstn_length_le by lia. simpl. rewrite skipn_length. lia.
     + apply nth_error_None in En. lia.
-  - (* LOG *) unfold exec_instr. simpl in Hlen.
+  - (* LOG *) unfold exec_post, exec_instr. simpl in Hlen.
     destruct (f_stack f) as [|off [|size r]] eqn:Hs; simpl in Hlen; try lia.
     destruct (2 ^ 64 <=? size); [post|].
     destruct (length r <? n)%nat eqn:El; [apply Nat.ltb_lt in El; lia|]. apply Nat.ltb_ge in El.
@@ -397,15 +398,194 @@ Proof.
   - (* CREATE *) apply (exec_create_ok c f false); assumption.
   - (* CREATE2 *) apply (exec_create_ok c f true); assumption.
   - (* call *) apply exec_call_ok; assumption.
-  - (* RETURN *) unfold exec_instr. stack4 Hs Hlen f; mem_step;
+  - (* RETURN *) unfold exec_post, exec_instr. stack4 Hs Hlen f; mem_step;
     (destruct (mem_read _ _ _) eqn:Erd; [|exfalso; revert Erd; eapply mem_read_ok; eauto]); post.
-  - (* REVERT *) unfold exec_instr. stack4 Hs Hlen f; mem_step;
+  - (* REVERT *) unfold exec_post, exec_instr. stack4 Hs Hlen f; mem_step;
     (destruct (mem_read _ _ _) eqn:Erd; [|exfalso; revert Erd; eapply mem_read_ok; eauto]); post.
-  - (* INVALID *) unfold exec_instr. post.
-  - (* SELFDESTRUCT *) unfold exec_instr. stack4 Hs Hlen f;
+  - (* INVALID *) unfold exec_post, exec_instr. post.
+  - (* SELFDESTRUCT *) unfold exec_post, exec_instr. stack4 Hs Hlen f;
     (destruct (c_static c); [post|]); cbv zeta;
     (destruct (_ <? _); [post|]);
     (destruct (charge _ _) eqn:Ec; [apply charge_some in Ec|post]); post.
 Qed.
 
 End ExecProofs.
+
+(* ------------------------------------------------------------------ *)
+(* one interpreter step *)
+
+Definition frame_inv (f : frame) : Prop :=
+  (length (f_stack f) <= stack_limit)%nat /\ mem_wf (f_mem f).
+
+Lemma stack_req_le i : (snd (stack_req i) <= S (fst (stack_req i)))%nat.
+Proof. destruct i; try destruct k; simpl; lia. Qed.
+
+Section StepProofs.
+Variable rec : ctx -> world -> N -> fresult.
+
+Lemma step_post c f :
+  hyp_rec rec (c_depth c) -> frame_inv f ->
+  match step rec c f with
+  | inl f' => frame_inv f' /\ f_gas f' < f_gas f /\
+              f_gas f' + m_last (f_mem f') <= f_gas f + m_last (f_mem f)
+  | inr r => r_gas r <= f_gas f /\ okst (r_status r)
+  end.
+Proof.
+  intros Hrec [Hst Hwf]. unfold step.
+  set (i := decode _ _).
+  pose proof (stack_req_le i) as Hle.
+  destruct (stack_req i) as [pops pushes] eqn:Hreq. simpl in Hle.
+  destruct (length (f_stack f) <? pops)%nat eqn:E1; [simpl; split; auto; lia|].
+  apply Nat.ltb_ge in E1.
+  destruct (stack_limit + pops - pushes <? length (f_stack f))%nat eqn:E2; [simpl; split; auto; lia|].
+  apply Nat.ltb_ge in E2.
+  destruct (charge (f_gas f) (const_gas i)) as [g|] eqn:Ec; [|simpl; split; auto; lia].
+  apply charge_some in Ec.
+  pose proof (exec_instr_ok rec c (set_gas f g) i Hrec Hwf) as Hex.
+  rewrite Hreq in Hex. simpl in Hex. specialize (Hex E1).
+  destruct (exec_instr rec c (set_gas f g) i) as [f'|r]; simpl in Hex.
+  - rewrite Hreq in Hex. simpl in Hex. destruct Hex as (Hl & Hw' & Hg & Hm).
+    unfold frame_inv. unfold stack_limit in *.
+    destruct (const_gas i =? 0) eqn:E0.
+    + apply N.eqb_eq in E0. repeat split; auto; lia.
+    + apply N.eqb_neq in E0. repeat split; auto; lia.
+  - destruct Hex. split; auto. lia.
+Qed.
+
+End StepProofs.
+
+(* ------------------------------------------------------------------ *)
+(* iteration *)
+
+Section Iter.
+Context {S R : Type} (f : S -> S + R) (P : S -> Prop) (m : S -> N).
+Hypothesis Hstep : forall s s', P s -> f s = inl s' -> P s' /\ m s' < m s.
+
+Lemma iter_pow_inl k : forall s s',
+  P s -> iter_pow k f s = inl s' -> P s' /\ m s' + 2 ^ N.of_nat k <= m s.
+Proof.
+  induction k as [|k IH]; intros s s' Hp H.
+  - simpl in H. destruct (Hstep _ _ Hp H). split; auto. change (2 ^ N.of_nat 0) with 1. lia.
+  - simpl in H. destruct (iter_pow k f s) as [s1|] eqn:E1; [|discriminate].
+    destruct (IH _ _ Hp E1) as [Hp1 Hm1]. destruct (IH _ _ Hp1 H) as [Hp2 Hm2].
+    split; auto. rewrite Nat2N.inj_succ, N.pow_succ_r'. lia.
+Qed.
+
+Lemma iter_pow_inr k : forall s r,
+  P s -> iter_pow k f s = inr r -> exists s0, P s0 /\ m s0 <= m s /\ f s0 = inr r.
+Proof.
+  induction k as [|k IH]; intros s r Hp H.
+  - exists s. repeat split; auto. lia.
+  - simpl in H. destruct (iter_pow k f s) as [s1|r1] eqn:E1.
+    + destruct (iter_pow_inl k _ _ Hp E1) as [Hp1 Hm1].
+      destruct (IH _ _ Hp1 H) as (s0 & A & B & C). exists s0. repeat split; auto.
+      assert (0 < 2 ^ N.of_nat k) by (apply N.pow_pos_nonneg; lia). lia.
+    + inversion H; subst. apply (IH _ _ Hp E1).
+Qed.
+
+Lemma reachable_inv s0 s : P s0 -> reachable f s0 s -> P s /\ m s <= m s0.
+Proof.
+  intros Hp H. induction H as [|s s' Hr [IH1 IH2] Hf].
+  - split; auto. lia.
+  - destruct (Hstep _ _ IH1 Hf). split; auto. lia.
+Qed.
+
+End Iter.
+
+(* ------------------------------------------------------------------ *)
+(* frames and the recursion over depth *)
+
+Lemma frame_inv_init w gas : frame_inv (init_frame w gas).
+Proof. split; [simpl; unfold stack_limit; lia|apply mem_wf_empty]. Qed.
+
+Lemma step_dec rec c :
+  hyp_rec rec (c_depth c) ->
+  forall s s', frame_inv s -> step rec c s = inl s' -> frame_inv s' /\ f_gas s' < f_gas s.
+Proof.
+  intros Hrec s s' Hi H. pose proof (step_post rec c s Hrec Hi) as Hp. rewrite H in Hp.
+  destruct Hp as (A & B & _). auto.
+Qed.
+
+Lemma fuel_bound_gt gas : gas + 1 < 2 ^ N.of_nat (fuel_bound gas).
+Proof. unfold fuel_bound. rewrite N2Nat.id. apply N.size_gt. Qed.
+
+Lemma run_frame_good rec c w gas :
+  hyp_rec rec (c_depth c) -> good (run_frame rec c w gas) gas.
+Proof.
+  intros Hrec. unfold run_frame. destruct (c_code c); [split; simpl; auto; lia|].
+  destruct (iter_pow _ _ _) as [f|r] eqn:E.
+  - exfalso.
+    destruct (iter_pow_inl (step rec c) frame_inv f_gas (step_dec rec c Hrec) _ _ _
+                (frame_inv_init w gas) E) as [_ Hm].
+    pose proof (fuel_bound_gt gas). simpl in Hm. lia.
+  - destruct (iter_pow_inr (step rec c) frame_inv f_gas (step_dec rec c Hrec) _ _ _
+                (frame_inv_init w gas) E) as (s0 & Hi & Hg & Hs).
+    pose proof (step_post rec c s0 Hrec Hi) as Hp. rewrite Hs in Hp. destruct Hp.
+    simpl in Hg. split; auto. lia.
+Qed.
+
+Lemma run_good d : forall c w g,
+  (1 <= d)%nat -> 1026 <= c_depth c + N.of_nat d -> good (run d c w g) g.
+Proof.
+  induction d as [|d IH]; intros c w g Hd Hdepth; [lia|].
+  simpl. apply run_frame_good.
+  destruct (N.ltb 1024 (c_depth c)) eqn:E.
+  - left. apply N.ltb_lt in E. exact E.
+  - right. apply N.ltb_ge in E. intros c' w' g' Hc'. apply IH; lia.
+Qed.
+
+Lemma hyp_rec_run d c :
+  1026 <= c_depth c + N.of_nat (S d) -> hyp_rec (run d) (c_depth c).
+Proof.
+  intros H. destruct (N.ltb 1024 (c_depth c)) eqn:E.
+  - left. apply N.ltb_lt in E. exact E.
+  - right. apply N.ltb_ge in E. intros c' w' g' Hc'. apply run_good; lia.
+Qed.
+
+Lemma hyp_rec_top : hyp_rec (run (pred max_depth_fuel)) 0.
+Proof. right. intros c' w g Hc. apply run_good; [unfold max_depth_fuel; simpl; lia|]. rewrite Hc. unfold max_depth_fuel. simpl. lia. Qed.
+
+(* every frame state the interpreter passes through *)
+Lemma reachable_frame_inv d c w gas f :
+  1026 <= c_depth c + N.of_nat (S d) ->
+  reachable (step (run d) c) (init_frame w gas) f ->
+  frame_inv f /\ f_gas f <= gas.
+Proof.
+  intros Hd Hr.
+  apply (reachable_inv (step (run d) c) frame_inv f_gas (step_dec _ c (hyp_rec_run d c Hd)) _ _
+           (frame_inv_init w gas) Hr).
+Qed.
+
+Lemma reachable_mem_paid d c w gas f :
+  1026 <= c_depth c + N.of_nat (S d) ->
+  reachable (step (run d) c) (init_frame w gas) f ->
+  f_gas f + m_last (f_mem f) <= gas.
+Proof.
+  intros Hd Hr. pose proof (hyp_rec_run d c Hd) as Hrec.
+  assert (H : frame_inv f /\ f_gas f + m_last (f_mem f) <= gas).
+  { induction Hr as [|s s' Hr' IH Hs].
+    - split; [apply frame_inv_init|simpl; lia].
+    - destruct IH as [Hi Hg]. pose proof (step_post _ c s Hrec Hi) as Hp. rewrite Hs in Hp.
+      destruct Hp as (A & B & C). split; auto. lia. }
+  apply H.
+Qed.
+
+Lemma top_call_good e w pcs to value input gas :
+  let r := top_call e w pcs to value input gas in t_gas r <= gas /\ okst (t_status r).
+Proof.
+  unfold top_call. cbv zeta.
+  match goal with |- context [evm_call ?rc ?a ?b ?c ?d ?ee ?f ?g ?h ?i ?j ?k ?l] =>
+    pose proof (evm_call_ok rc a b c d ee f g h i j k l hyp_rec_top) as H; cbv zeta in H end.
+  destruct H as [Hg He]. simpl. split; auto.
+  destruct (cr_err _); simpl in *; auto.
+Qed.
+
+Lemma top_create_good e w pcs value init gas :
+  let r := top_create e w pcs value init gas in t_gas r <= gas /\ okst (t_status r).
+Proof.
+  unfold top_create. cbv zeta.
+  match goal with |- context [evm_create ?rc ?a ?b ?c ?d ?ee ?f ?g ?h ?i] =>
+    pose proof (evm_create_ok rc a b c d ee f g h i hyp_rec_top) as H; cbv zeta in H end.
+  destruct H as [Hg He]. simpl. split; auto.
+  destruct (xr_err _); simpl in *; auto.
+Qed.
